@@ -13,8 +13,8 @@
 #include "c09_common.h"
 using namespace c09;
 
-static const double C_INPLACE     = 8;  // |got - ref| <= C eps sum|terms|; theory: 2 (n=4 terms, unit roundoff eps/2); worst seen 0.93
-static const double C_ROT_INPLACE = 16; // rotate forms vs Rodrigues reference: |got - R_ref M| <= C eps sum_k |M_kj|; worst seen 1.9
+static const double C_INPLACE     = 16; // |got - ref| <= C (eps sum|terms| + underflow); theory for any evaluation order of 4 terms: 2; worst seen 1.87
+static const double C_ROT_INPLACE = 24; // rotate forms vs Rodrigues reference: |got - R_ref M| <= C eps sum_k |M_kj|; worst seen 2.13
 
 static const char* const OPN[12] = {"Matrix33.translate",  "Matrix33.scale",         "Matrix33.shear(S)", "Matrix33.shear(Vec2)",
                                     "Matrix44.translate",  "Matrix44.scale",         "Matrix44.shear(Vec3)", "Matrix44.shear(Shear6)",
@@ -234,11 +234,11 @@ sub_inplace (Ctx& c, Local& L, uint64_t idx)
      "dense_one_nonzero_param", "exact_case", "bit_identical_to_library_product", "rotate_zero_angle", C09_ANGLE_CLASSES,              \
      "Matrix33.translate", "Matrix33.scale", "Matrix33.shear(S)", "Matrix33.shear(Vec2)", "Matrix44.translate", "Matrix44.scale",      \
      "Matrix44.shear(Vec3)", "Matrix44.shear(Shear6)", "Matrix44.rotate", "Matrix22.scale", "Matrix22.rotate", "Matrix33.rotate"}
-MON_SUB (ranged<sub_inplace<float>>, "inplace_forms_float", 2400000, 480000000)
+MON_SUB (ranged<sub_inplace<float>>, "inplace_forms_float", 2400000, 240000000)
     .req (INPLACE_REQ)
     .over ("12 in-place forms (M33/M44 translate, scale, shear all overloads, M44 rotate, M22 scale; M22/M33 rotate) x 8 classes of CURRENT matrix "
            "(integer lattice, dense non-affine, affine, wide exponents, sparse, identity, identity with dense last column, dense with one non-zero parameter): "
            "result vs set*(..)*M (M*setRotation for M22/M33 rotate), exact on lattices");
-MON_SUB (ranged<sub_inplace<double>>, "inplace_forms_double", 2400000, 480000000)
+MON_SUB (ranged<sub_inplace<double>>, "inplace_forms_double", 2400000, 240000000)
     .req (INPLACE_REQ)
     .over ("as inplace_forms_float, for double");
